@@ -347,6 +347,8 @@ def weave_stack(u, u4):
 
     def write_ens(op='set'):
         return [
+            ('C01 C03 C19:a-write-never-changes-the-bytes-of-any-file',
+             'bytes_kept(*old(w), *final(w))'),
             ('C13 C11:success-means-a-publication-happened' + ('' if op == 'set' else '-unless-the-key-was-already-bound'),
              'r.is_ok() ==> final(w).published > old(w).published' + ('' if op == 'set' else ' || self.lookup(old(w).files, key).is_some()')),
             ('C02 C18:valid-on-every-exit', 'final(w).inv()'), ('', 'final(w).kept_nc(*old(w))'),
@@ -551,7 +553,7 @@ pub open spec fn read_copies_accepted(rs: ReadOnlyCache, links: Map<PathV, Inode
         ('C15 C02:finalizing-touches-only-that-inode',
          'final(w).files == old(w).files && final(w).dirs == old(w).dirs && forall|i: InodeId| i != %(t)s.ino() && old(w).inodes.contains_key(i) ==> #[trigger] final(w).inodes[i] == old(w).inodes[i]'),
         ('C03 C19:content-is-never-touched-by-finalization',
-         'final(w).inodes.contains_key(%(t)s.ino()) && final(w).inodes[%(t)s.ino()].content == old(w).inodes[%(t)s.ino()].content'),
+         'final(w).inodes.contains_key(%(t)s.ino()) && final(w).inodes[%(t)s.ino()].content == old(w).inodes[%(t)s.ino()].content && bytes_kept(*old(w), *final(w))'),
         ('C06 C20:at-most-three-filesystem-calls', 'final(w).steps <= old(w).steps + 3 && final(w).opens == old(w).opens'),
     ]
     ft = u.under_contract(u.item('src/stack.rs', ['fn finalize_tempfile']), ['C03', 'C19', 'C18', 'C02', 'C15'])
@@ -608,6 +610,8 @@ pub open spec fn read_copies_accepted(rs: ReadOnlyCache, links: Map<PathV, Inode
 
     def impl_ens(ws, op='set'):
         return [
+            ('C01 C03 C19:a-write-never-changes-the-bytes-of-any-file',
+             'bytes_kept(*old(w), *final(w))'),
             ('C13 C11:success-means-a-publication-happened' + ('' if op == 'set' else '-unless-the-key-was-already-bound'),
              'r.is_ok() ==> final(w).published > old(w).published' + ('' if op == 'set' else ' || %s.lookup(old(w).files, key).is_some()' % ws)),
             INV, ('', 'final(w).kept_nc(*old(w))'),
@@ -662,4 +666,214 @@ pub open spec fn read_copies_accepted(rs: ReadOnlyCache, links: Map<PathV, Inode
         else:
             d.insert_after('let path = this . finalize_tempfile ( value ) ? ;', '\n            proof { if valid_key(str_bytes(key.name)) { lemma_value_ok_after_finalize(*old(w), *w, path.pathv(), str_bytes(key.name), this.syncs()); } }')
         u.text('}\n')
+    weave_get_or_update(u, INV, BADK)
     u.text('}\n')
+
+
+def weave_get_or_update(u, INV, BADK):
+    """Cache::get_or_update and its nested `promote` (C13 C14 C19 C01 C03)."""
+    # the enums the judge callback works with
+    for name in ('CacheHit', 'CacheHitAction'):
+        e = u.item('src/stack.rs', ['enum ' + name])
+        e.drop_attrs()
+    u.dropped.append('stack.rs: #[derive(..)] / #[non_exhaustive]-style attributes on CacheHit and CacheHitAction')
+    u.text('''
+/// The file a hit carries.
+pub open spec fn hit_file<'a>(h: CacheHit<'a>) -> &'a mut File {
+    match h {
+        CacheHit::Primary(f) => f,
+        CacheHit::Secondary(f) => f,
+    }
+}
+
+pub proof fn lemma_path_split(p: PathV)
+    requires
+        p.len() > 0,
+    ensures
+        p == child(parent(p), base_name(p)),
+{
+    assert(p =~= p.drop_last().push(p.last()));
+}
+
+/// A freshly created temporary file inside a `.kismet_temp` directory is bound by that one name only, and no reader can see it.
+pub proof fn lemma_fresh_temp_invisible(w1: World, w2: World, path: PathV, ino: InodeId)
+    requires
+        w1.env_ok(),
+        w2.env_ok(),
+        w2.cache_dirs == w1.cache_dirs && w2.ro_roots == w1.ro_roots,
+        !w1.inodes.contains_key(ino),
+        w2.files == w1.files.insert(path, ino),
+        path.len() > 0,
+        w1.is_temp_dir(parent(path)),
+        !w1.under_ro(parent(path)),
+    ensures
+        w2.invisible(ino),
+        forall|q: PathV| #[trigger] w2.files.contains_key(q) && w2.files[q] == ino ==> q == path,
+        !w2.in_cache_namespace(path),
+{
+    assert forall|q: PathV| #[trigger] w2.files.contains_key(q) && w2.files[q] == ino implies q == path by {
+        if q != path {
+            assert(w1.files.contains_key(q));
+            assert(w1.inodes.contains_key(w1.files[q]));
+        }
+    }
+    assert(!w2.cache_dirs.contains(parent(path))) by {
+        if w1.cache_dirs.contains(parent(path)) {
+            assert(base_name(parent(path)) != temp_name());
+        }
+    }
+}
+''')
+    u.text('''
+/// ASSUMPTION about every judge callback (C13 C19): it may read and seek the hit, but hands back the same handle.
+#[verifier::prophetic]
+pub open spec fn judge_reads_only<J: FnOnce(CacheHit) -> CacheHitAction>(judge: J) -> bool {
+    &&& forall|h: CacheHit| #[trigger] call_requires(judge, (h,))
+    &&& forall|h: CacheHit, a: CacheHitAction| #[trigger] call_ensures(judge, (h,), a) ==> final(hit_file(h)).ino() == hit_file(h).ino() && final(hit_file(h)).can_write() == hit_file(h).can_write()
+}
+
+/// C13 "changes nothing": no name a lookup could resolve is created, removed or re-bound.
+pub open spec fn namespace_same(old: World, fin: World) -> bool {
+    forall|p: PathV| #![trigger old.files.contains_key(p)] #![trigger fin.files.contains_key(p)] old.in_cache_namespace(p) ==> (fin.files.contains_key(p) <==> old.files.contains_key(p)) && (old.files.contains_key(p) ==> fin.files[p] == old.files[p])
+}
+
+/// C13 C14: what get_or_update does with a hit on the copy `hit`, judged `a`, when it returns `r`.
+pub open spec fn hit_outcome(c: &Cache, old: World, fin: World, primary: bool, hit: InodeId, a: CacheHitAction, r: File) -> bool {
+    match a {
+        CacheHitAction::Replace => !old.inodes.contains_key(r.ino()) && (c.writer().is_some() ==> fin.published > old.published),
+        _ => {
+            &&& r.ino() == hit
+            &&& if a is Promote && !primary && c.writer().is_some() {
+                fin.published > old.published
+            } else {
+                fin.published == old.published && namespace_same(old, fin)
+            }
+            &&& c.checker().is_some() ==> fin.app_not_found > old.app_not_found || exists|t: InodeId| !old.inodes.contains_key(t) && #[trigger] checker_accepts(c.checker().unwrap(), hit, t)
+        },
+    }
+}
+
+/// T2: `opt.as_ref().map(Arc::as_ref)` (function items as values are outside Verus).
+#[verifier::external_body]
+pub fn opt_arc_as_ref<T: ?Sized>(o: &Option<Arc<T>>) -> (r: Option<&T>)
+    ensures
+        r.is_some() == o.is_some(),
+        o.is_some() ==> r.unwrap() == &*o.unwrap(),
+{
+    unimplemented!()
+}
+''')
+    u.text('use crate::std::io::Seek;\nuse crate::std::io::SeekFrom;\nuse crate::call_populate;\n')
+    im = u.item('src/stack.rs', ['impl Cache'])
+    im.drop_members_except({'get_or_update'})
+    g = u.under_contract(im.sub(['fn get_or_update']), ['C13', 'C14', 'C19', 'C01', 'C03', 'C02', 'C16', 'C18', 'C11', 'C15'])
+    g.air = r'stack::Cache::get_or_update(::get_tempfile)?'
+    g.add_param(W)
+    g.replace("key : impl Into < Key < 'a > >", "key: Key<'a>", 'T11-into-identity')
+    g.replace('key . into ( )', 'key', 'T11-into-identity')
+    g.replace('self . write_side . as_ref ( ) . map ( Arc :: as_ref )', 'opt_arc_as_ref(&self.write_side)', 'T2-rebind')
+    u.dropped.append('T2: `self.write_side.as_ref().map(Arc::as_ref)` in get_or_update is rebound to the stand-in opt_arc_as_ref(&self.write_side) (same Option<&dyn FullCache>)')
+    g.replace('cache_or . and_then ( | cache | cache . get ( key ) . transpose ( ) ) . transpose ( )',
+              '(match cache_or { Some(cache) => cache.get(key, Tracked(w)), None => Ok(None) })', 'T14-transpose-identity')
+    u.dropped.append('T14: `opt.and_then(|c| c.get(key).transpose()).transpose()` is rewritten to the equal `match opt { Some(c) => c.get(key), None => Ok(None) }` '
+                     '(Option::transpose / Result::transpose are mutually inverse; closures capturing the ghost world are outside Verus)')
+    GT_CONTRACT = ('\n            requires\n                old(w).inv(),\n                cache_or.is_some() ==> cache_or.unwrap().level_wf() && cache_or.unwrap().rw(old(w).cfg()),\n'
+                   '            ensures\n                final(w).inv(),\n                final(w).kept_nc(*old(w)) && final(w).published == old(w).published && final(w).published == old(w).published,\n'
+                   '                namespace_same(*old(w), *final(w)),\n'
+                   '                bytes_kept(*old(w), *final(w)),\n'
+                   '                forall|i: InodeId| #[trigger] old(w).inodes.contains_key(i) ==> final(w).inodes[i] == old(w).inodes[i],\n'
+                   '                forall|k: Key| cache_or.is_some() ==> #[trigger] cache_or.unwrap().lookup(final(w).files, k) == cache_or.unwrap().lookup(old(w).files, k),\n'
+                   '                r.is_err() ==> final(w).hard_faults > old(w).hard_faults,\n'
+                   '                r.is_ok() ==> r.unwrap().can_write() && r.unwrap().offset() == 0 && !old(w).inodes.contains_key(r.unwrap().ino()) && final(w).inodes.contains_key(r.unwrap().ino()) '
+                   '&& final(w).inodes[r.unwrap().ino()].content.len() == 0 && final(w).invisible(r.unwrap().ino()),   // @L C01 C02:scratch-files-are-fresh-empty-and-invisible\n')
+    g.replace('let get_tempfile = | |', 'fn get_tempfile(cache_or: Option<&dyn FullCache>, key: Key, %s) -> (r: Result<File>)%s' % (W, GT_CONTRACT), 'T4-closure-lift')
+    g.replace('get_tempfile ( )', 'get_tempfile(cache_or, key, Tracked(w))', 'T4-closure-call')
+    g.replace('checker ( & mut file , & mut read )', 'checker.call(&mut file, &mut read)', 'T7-checker-call')
+    g.replace('checker ( & mut file , & mut tmp )', 'checker.call(&mut file, &mut tmp)', 'T7-checker-call')
+    GN = 'Ghost(str_bytes(key.name)), Tracked(w)'
+    g.replace('populate ( & mut tmp , None )', 'call_populate(populate, &mut tmp, None, %s)' % GN, 'T1-callback')
+    g.replace('populate ( & mut tmp , old )', 'call_populate(populate, &mut tmp, old, %s)' % GN, 'T1-callback')
+    g.replace('populate ( tmp . as_file_mut ( ) , old )', 'call_populate(populate, tmp.as_file_mut(), old, %s)' % GN, 'T1-callback')
+    u.dropped.append('T1 (callback): `populate(dst, old)` in get_or_update becomes call_populate(populate, dst, old, Ghost(key name), Tracked(w)), an external_body '
+                     'stand-in whose body is that call and whose contract is the assumption made about every populate function')
+    g.thread(['self . read_side . get', '. seek', 'tempfile :: tempfile', 'tempfile :: tempfile_in', 'cache . temp_dir', 'NamedTempFile :: new_in', 'self . finalize_tempfile',
+              'File :: open', 'cache . set', 'cache . put', 'cache . get', 'promote', 'std :: io :: copy', 'finalize_tempfile'])
+    pr = u.under_contract(g.sub(['fn promote']), ['C13', 'C19', 'C01', 'C03', 'C02', 'C18', 'C11', 'C15', 'C16'])
+    pr.air = 'stack::Cache::get_or_update::promote'
+    pr.add_param(W)
+    NAME = 'str_bytes(key.name)'
+    pr.contract(
+        requires=[('', 'old(w).inv() && cache.level_wf() && cache.rw(old(w).cfg()) && valid_key(%s) && old(w).inodes.contains_key(file.ino())' % NAME),
+                  ('C03:promotion-flushes-exactly-when-auto-sync-is-on', 'old(w).must_sync == sync'),
+                  ('C13 C01 C19:the-hit-is-copied-from-its-first-byte', 'file.offset() == 0'),
+                  ('C01:only-bytes-supplied-for-this-key-are-promoted', 'old(w).supplied.contains((%s, old(w).inodes[file.ino()].content))' % NAME)],
+        ensures=[
+            INV, ('', 'final(w).kept_nc(*old(w))'),
+            ('C13 C19:the-hit-itself-is-returned-rewound', 'r.is_ok() ==> r.unwrap().ino() == file.ino() && r.unwrap().can_write() == file.can_write() && r.unwrap().offset() == 0'),
+            ('C13 C11:an-identical-copy-is-published-in-the-write-cache-unless-the-key-was-already-bound',
+             'r.is_ok() ==> final(w).published > old(w).published || cache.lookup(old(w).files, key).is_some()'),
+            ('C01 C15:the-hit-keeps-its-bytes', 'final(w).inodes.contains_key(file.ino()) && final(w).inodes[file.ino()].content == old(w).inodes[file.ino()].content'),
+        ])
+    pr.insert_after('let mut tmp = NamedTempFile :: new_in ( cache . temp_dir ( key ) ? ) ? ;',
+                    '\n            let ghost w2 = *w;\n            let ghost tmp_path = tmp.pathv();\n            let ghost tmp_ino = tmp.ino();\n'
+                    '            proof {\n'
+                    '                lemma_path_split(tmp.pathv());\n'
+                    '                assert(cache.lookup(w2.files, key) == cache.lookup(old(w).files, key));\n'
+                    '                assert(w2.invisible(tmp.ino()) && !w2.in_cache_namespace(tmp.pathv()) && forall|q: PathV| #[trigger] w2.files.contains_key(q) && w2.files[q] == tmp.ino() ==> q == tmp.pathv());\n'
+                    '            }')
+    pr.insert_after('std :: io :: copy ( & mut file , tmp . as_file_mut ( ) ) ? ;',
+                    '\n            proof { crate::std::io::lemma_copied_whole(w2.inodes[file.ino()].content); assert(w2.inodes.contains_key(file.ino())); assert(file.ino() != tmp.ino()); assert(w.inodes.contains_key(file.ino())); assert(w2.inodes[file.ino()].content == old(w).inodes[file.ino()].content); assert(w.inodes[file.ino()].content == w2.inodes[file.ino()].content); }')
+    pr.insert_before('cache . put ( key , & path ) ? ;',
+                     'proof {\n'
+                     '                let pth = path.pathv();\n'
+                     '                assert(pth == tmp_path);\n'
+                     '                assert(w.owned.contains(pth));\n'
+                     '                assert(!w.in_cache_namespace(pth));\n'
+                     '                assert(!w.under_ro(pth));\n'
+                     '                assert(w.files.contains_key(pth) && w.files[pth] == tmp_ino);\n'
+                     '                assert(w.inode_at(pth).content == w2.inodes[file.ino()].content);\n'
+                     '                assert(w.supplied.contains((%s, w.inode_at(pth).content)));\n'
+                     '                assert(w.must_sync ==> w.inode_at(pth).synced);\n'
+                     '                assert(forall|q: PathV| #[trigger] w.files.contains_key(q) && w.files[q] == w.files[pth] ==> !w.in_cache_namespace(q));\n'
+                     '            }\n            ' % NAME)
+    # ---- the contract of get_or_update itself ----------------------------------------------------------
+    WS = 'self.writer().unwrap()'
+    RS = 'self.readers()'
+    WHIT = '(self.writer().is_some() && %s.lookup(old(w).files, key).is_some())' % WS
+    g.contract(
+        requires=[('', 'old(w).inv() && old(w).must_sync == self.syncs() && levels_wf(%s.levels()) && levels_configured(%s.levels(), old(w).cfg()) '
+                       '&& %s.checker() == self.checker() && (self.writer().is_some() ==> %s.level_wf() && %s.rw(old(w).cfg()))' % (RS, RS, RS, WS, WS)),
+                  ('', 'judge_reads_only(judge)')],
+        ensures=[
+            INV, ('', 'final(w).kept_nc(*old(w))'),
+            ('C16:invalid-names-fail-with-invalid-input-and-change-nothing',
+             '(self.writer().is_some() || %s.levels().len() > 0) && !first_byte_ok(%s) ==> r.is_err() && err_kind(err_of(r)) == ErrorKind::InvalidInput && final(w).same_fs(*old(w))' % (RS, NAME)),
+            ('C19 C13:every-returned-handle-is-positioned-at-offset-zero', 'r.is_ok() ==> r.unwrap().offset() == 0'),
+            ('C19:only-a-throw-away-file-is-ever-returned-writable',
+             'r.is_ok() && r.unwrap().can_write() ==> self.writer().is_none() && !old(w).inodes.contains_key(r.unwrap().ino())'),
+            ('C01:the-returned-file-holds-bytes-supplied-for-exactly-this-key',
+             'r.is_ok() ==> final(w).inodes.contains_key(r.unwrap().ino()) && final(w).supplied.contains((%s, final(w).inodes[r.unwrap().ino()].content))' % NAME),
+            ('C13 C14:a-write-cache-hit-is-judged-primary-and-the-action-applied',
+             'r.is_ok() && %s ==> exists|h: CacheHit, a: CacheHitAction| #[trigger] call_ensures(judge, (h,), a) && h is Primary && hit_file(h).ino() == %s.lookup(old(w).files, key).unwrap() '
+             '&& hit_outcome(self, *old(w), *final(w), true, hit_file(h).ino(), a, r.unwrap())' % (WHIT, WS)),
+            ('C14:a-write-cache-hit-is-checked-against-every-read-only-copy',
+             'r.is_ok() && %s && self.checker().is_some() ==> read_copies_accepted(%s, old(w).files, key, self.checker().unwrap(), %s.lookup(old(w).files, key).unwrap())' % (WHIT, RS, WS)),
+            ('C13 C14:otherwise-the-first-read-only-copy-is-judged-secondary-and-the-action-applied',
+             'r.is_ok() && !%s && !no_read_copy(%s, old(w).files, key) ==> exists|h: CacheHit, a: CacheHitAction, idx: int| #[trigger] call_ensures(judge, (h,), a) && h is Secondary '
+             '&& #[trigger] first_copy(%s.levels(), old(w).files, key, idx, hit_file(h).ino()) && hit_outcome(self, *old(w), *final(w), false, hit_file(h).ino(), a, r.unwrap())' % (WHIT, RS, RS)),
+            ('C13:a-miss-is-populated-and-stored-in-the-write-cache-or-served-from-a-throw-away-file',
+             'r.is_ok() && !%s && no_read_copy(%s, old(w).files, key) ==> if self.writer().is_some() { final(w).published > old(w).published } else { '
+             '!old(w).inodes.contains_key(r.unwrap().ino()) && final(w).published == old(w).published && namespace_same(*old(w), *final(w)) }' % (WHIT, RS)),
+        ])
+    g.insert_after('let mut tmp = NamedTempFile :: new_in ( cache . temp_dir ( key ) ? ) ? ;',
+                   '\n        let ghost w2 = *w;\n        let ghost tmp_path = tmp.pathv();\n        let ghost tmp_ino = tmp.ino();\n'
+                   '        proof {\n'
+                   '            lemma_path_split(tmp.pathv());\n'
+                   '            assert(cache.lookup(w2.files, key) == cache.lookup(w0.files, key));\n'
+                   '            assert(w2.invisible(tmp.ino()) && !w2.in_cache_namespace(tmp.pathv()) && !w2.under_ro(tmp.pathv()) '
+                   '&& forall|q: PathV| #[trigger] w2.files.contains_key(q) && w2.files[q] == tmp.ino() ==> q == tmp.pathv());\n'
+                   '        }', nth=-1)
+    g.insert_after('let mut tmp = tempfile :: tempfile ( ) ? ;', '\n                proof { crate::tempfile::lemma_anon_invisible(wt0, *w, Ok(tmp)); }')
+    g.insert_before('let mut tmp = tempfile :: tempfile ( ) ? ;', 'let ghost wt0 = *w;\n                ')
+    g.body_start('let ghost w0 = *w;   // the local variable `old` below shadows old(..)')
+    g.attr('#[verifier::rlimit(400)]')   # ~30 exits x 11 postconditions: the largest query of the unit (see DESIGN, solver budget)
